@@ -129,6 +129,31 @@ Definition negotiate (cfg : config) (cmax : version) (r1 r2 : reaction) : neg_re
           if set_accepted r2 then mkRes [f1; f2] Proceeds v else mkRes [f1; f2] Fails v
     end.
 
+(* ---- keep-alives that arrive while negotiation is under way ---- *)
+(* The reader may send KEEPALIVEs at any time.  k1 of them arrive while GET_SUPPORTED_VERSION is
+   unanswered, k2 while SET_PROTOCOL_VERSION is unanswered; the writer acknowledges each at once,
+   stamping the version in use at that moment: the configured maximum before the query is
+   answered, the chosen version afterwards (negotiate stores the choice before it sends
+   SET_PROTOCOL_VERSION). *)
+Definition acks (cfg : config) (v : version) (k : nat) : list frame :=
+  repeat (stamp cfg v ack_message) k.
+
+Definition negotiate_ka (cfg : config) (cmax : version) (k1 k2 : nat) (r1 r2 : reaction)
+  : neg_result :=
+  if cmax <=? V1_0_1 then mkRes [] Proceeds cmax
+  else
+    let f1 := stamp cfg cmax (new_message cfg MsgGetSupportedVersion []) in
+    match get_supported r1 with
+    | None => mkRes (f1 :: acks cfg cmax k1) Fails cmax
+    | Some (cur, mx) =>
+        let v := if mx <? cmax then mx else cmax in
+        if cur =? v then mkRes (f1 :: acks cfg cmax k1) Proceeds v
+        else
+          let f2 := stamp cfg v (new_message cfg MsgSetProtocolVersion [v]) in
+          mkRes (f1 :: acks cfg cmax k1 ++ f2 :: acks cfg v k2)
+                (if set_accepted r2 then Proceeds else Fails) v
+    end.
+
 (* ---- traffic after negotiation ---- *)
 (* Request: anything built through newMessage (SendMessage, SendFor, Shutdown, SendNoWait of a
    NewByteMessage/NewHdrOnlyMsg); Ack: the writer's keep-alive acknowledgement *)
@@ -153,3 +178,11 @@ Definition ordinary (l : later_msg) : bool :=
 
 (* configurations whose writer puts the client's version on every ordinary message *)
 Definition conforming (cfg : config) : bool := negb (prestamp cfg) || writer_overrides cfg.
+
+Definition session_ka (cfg : config) (cmax : version) (k1 k2 : nat) (r1 r2 : reaction)
+  (ls : list later_msg) : neg_result * list frame :=
+  let r := negotiate_ka cfg cmax k1 k2 r1 r2 in
+  (r, match n_outcome r with Proceeds => write_later cfg (n_version r) ls | Fails => [] end).
+
+Definition neg_frames_only (fs : list frame) : list frame :=
+  filter (fun f => is_neg_type (m_typ f)) fs.
